@@ -18,7 +18,7 @@ one-to-one pair; writer changes link rows.
 """
 import itertools, json, os, sqlite3, traceback
 
-from pony.orm import Database, Required, Optional, Set, PrimaryKey, db_session, select, rollback
+from pony.orm import Database, Required, Optional, Set, PrimaryKey, db_session, select, rollback, commit
 from pony.orm import core
 import ponyutil
 
@@ -122,27 +122,46 @@ def snap(env):
     cs = []
     for obj in sorted(cache.indexes[C._pk_attrs_].values(), key=lambda o: o._pkval_):
         cs.append({'id': obj._pkval_, 'vals': pairs(obj._vals_), 'dbvals': pairs(obj._dbvals_),
-                   'rbits': [i for i, b in enumerate(bits) if obj._rbits_ & b]})
+                   'rbits': [i for i, b in enumerate(bits) if obj._rbits_ & b],
+                   'wbits': [i for i, b in enumerate(bits) if (obj._wbits_ or 0) & b]})
     kids = []
     for p in sorted(cache.indexes[P._pk_attrs_].values(), key=lambda o: o._pkval_):
         sd = p._vals_.get(P.kids)
         if sd is not None:
             kids.append({'p': p._pkval_, 'items': sorted(x._pkval_ for x in sd), 'full': bool(sd.is_fully_loaded), 'count': sd.count})
-    return {'c': cs, 'kids': kids}
+    return {'c': cs, 'kids': kids, 'toSave': [o._pkval_ for o in cache.objects_to_save if o is not None]}
+
+
+def needs_sql(env, cache, op):
+    """may the operation issue a SELECT?  (then pending assignments would be auto-flushed first)"""
+    k = op['k']
+    if k in ('write', 'commit'): return False
+    if k in ('read', 'contains'):
+        obj = cache.indexes[env.C._pk_attrs_].get(op['c'])
+        if obj is None: return False
+        return getattr(env.C, NAMES[op['a'] if k == 'read' else 0]) not in obj._vals_
+    return True
 
 
 def run_reader(env, case):
-    """returns per step: result, snapshot, db table before the op"""
+    """runs the history on real Pony.  Returns the list of EXECUTED steps: {'w': writer ops really applied, 'op', 'res',
+    'snap', 'db' (committed table when the op ran), 'full'}.  Differences to the generated history: a writer operation is
+    dropped while the reader holds the SQLite write lock (open transaction); `commit()` is inserted before an operation
+    that may issue SQL while assignments are pending (that is what auto-flush would do, plus releasing the lock);
+    the history ends at an OptimisticCheckError (the session is rolled back)."""
     env.reset(case['rows'])
     C, P = env.C, env.P
     out = []
     with db_session:
         ps = {p: P[p] for p in PIDS}
         cache = core.local.db2cache[env.db]
-        for step in case['steps']:
-            for wop in step['w']: env.write(wop)
+        def one(wops, op):
+            applied = []
+            for wop in wops:
+                if cache.in_transaction: continue
+                env.write(wop); applied.append(wop)
             table = env.table()
-            op = step['op']; k = op['k']
+            k = op['k']
             idx = cache.indexes[C._pk_attrs_]
             try:
                 if k == 'fetch':
@@ -163,6 +182,12 @@ def run_reader(env, case):
                     else:
                         v = getattr(obj, NAMES[op['a']])
                         res = {'val': v._pkval_ if isinstance(v, core.Entity) else enc(v)}
+                elif k == 'write':
+                    obj = idx.get(op['c'])
+                    if obj is None or op['a'] == 0: res = {'err': 'other'}
+                    else: setattr(obj, NAMES[op['a']], op['v']); res = {'ok': True}
+                elif k == 'commit':
+                    commit(); res = {'ok': True}
                 elif k == 'load':
                     obj = idx.get(op['c'])
                     if obj is None: res = {'err': 'other'}
@@ -178,18 +203,28 @@ def run_reader(env, case):
                 else: raise ValueError(k)
             except core.UnrepeatableReadError as e:
                 res = {'err': 'UnrepeatableReadError', 'msg': str(e)[:120]}
+            except core.OptimisticCheckError as e:
+                res = {'err': 'OptimisticCheckError', 'msg': str(e)[:120]}
             except Exception as e:
                 res = {'err': 'other', 'cls': type(e).__name__, 'msg': str(e)[:120]}
-            out.append({'res': res, 'snap': snap(env), 'db': table,
-                        'full': {p: bool(ps[p]._vals_.get(P.kids) is not None and ps[p]._vals_[P.kids].is_fully_loaded) for p in PIDS}})
-        rollback()
+            dead = res.get('err') == 'OptimisticCheckError' or not cache.is_alive
+            out.append({'w': applied, 'op': op, 'res': res, 'snap': None if dead else snap(env), 'db': table,
+                        'full': {} if dead else {p: bool(ps[p]._vals_.get(P.kids) is not None and ps[p]._vals_[P.kids].is_fully_loaded) for p in PIDS}})
+            return not dead
+        for step in case['steps']:
+            wops = step['w']
+            if cache.modified and needs_sql(env, cache, step['op']):
+                if not one(wops, {'k': 'commit'}): break
+                wops = []
+            if not one(wops, step['op']): break
+        if cache.is_alive: rollback()
     return out
 
 
 def model_request(case, real):
     steps = []
-    for st, r in zip(case['steps'], real):
-        op = dict(st['op'])
+    for r in real:
+        op = dict(r['op'])
         if op['k'] == 'fetch':
             op = {'k': 'fetch', 'ids': op['ids'], 'cols': op['cols'], 'cond': op.get('cond')}
         steps.append({'db': r['db'], 'op': op})
@@ -203,28 +238,29 @@ def norm_res(r):
 
 
 def norm_model_snap(s):
-    return {'c': s['c'], 'kids': [dict(k, items=sorted(k['items'])) for k in s['kids']]}
+    return {'c': s['c'], 'kids': [dict(k, items=sorted(k['items'])) for k in s['kids']], 'toSave': s['toSave']}
 
 
 def compare(case, real, mout):
     if 'steps' not in mout: return {'what': 'driver error', 'model': mout}
     for i, (r, m) in enumerate(zip(real, mout['steps'])):
-        mres = m['res']
-        if case['steps'][i]['op']['k'] == 'iter' and 'objs' in mres: mres = {'objs': sorted(mres['objs'])}
+        mres = m['res']; k = r['op']['k']
+        if k == 'iter' and 'objs' in mres: mres = {'objs': sorted(mres['objs'])}
         if norm_res(r['res']) != mres:
-            return {'what': 'result of step %d (%s)' % (i, case['steps'][i]['op']['k']), 'model': mres, 'real': r['res']}
+            return {'what': 'result of step %d (%s)' % (i, k), 'model': mres, 'real': r['res']}
+        if r['snap'] is None: break          # the session is over (OptimisticCheckError)
         ms = norm_model_snap(m['snap'])
         if ms != r['snap']:
-            part = 'c' if ms['c'] != r['snap']['c'] else 'kids'
-            return {'what': 'session after step %d (%s): %s' % (i, case['steps'][i]['op']['k'], part), 'model': ms[part], 'real': r['snap'][part]}
+            part = 'c' if ms['c'] != r['snap']['c'] else 'kids' if ms['kids'] != r['snap']['kids'] else 'toSave'
+            return {'what': 'session after step %d (%s): %s' % (i, k, part), 'model': ms[part], 'real': r['snap'][part]}
     return None
 
 
 def oracle(case, real):
     """the property, from the reader's results only"""
     seen = {}; coll = {}; bad = []
-    for i, (st, r) in enumerate(zip(case['steps'], real)):
-        op = st['op']; k = op['k']; res = r['res']
+    for i, r in enumerate(real):
+        op = r['op']; k = op['k']; res = r['res']
         if 'err' in res:
             if res['err'] != 'UnrepeatableReadError':
                 # a loud failure of another class is acceptable only for a FIRST read (e.g. lazy attribute of a vanished row)
@@ -232,7 +268,9 @@ def oracle(case, real):
                 if (k == 'read' and key[1:] in seen) or (k in ('iter', 'len', 'isEmpty') and op['p'] in coll):
                     bad.append({'step': i, 'op': op, 'kind': 'other-error-on-repeated-read', 'got': res})
             continue
-        if k == 'read' and op['a'] not in VOLATILE:
+        if k == 'write':
+            if op['a'] not in VOLATILE: seen[(op['c'], op['a'])] = (i, op['v'])     # the session's own change
+        elif k == 'read' and op['a'] not in VOLATILE:
             key = (op['c'], op['a'])
             if key in seen and seen[key][1] != res['val']:
                 bad.append({'step': i, 'op': op, 'kind': 'attribute-changed', 'first_step': seen[key][0], 'first': seen[key][1], 'got': res['val'],
@@ -242,7 +280,7 @@ def oracle(case, real):
             key = (op['c'], 0)
             if key in seen and (seen[key][1] == op['p']) != res['bool']:
                 bad.append({'step': i, 'op': op, 'kind': 'contains-changed', 'first_step': seen[key][0], 'first': seen[key][1], 'got': res['bool']})
-        elif k in ('iter', 'len', 'isEmpty') and r['full'][op['p']]:
+        elif k in ('iter', 'len', 'isEmpty') and r['full'].get(op['p']):
             p = op['p']
             obs = {'iter': ('items', res.get('objs')), 'len': ('len', res.get('num')), 'isEmpty': ('empty', res.get('bool'))}[k]
             first = coll.setdefault(p, {'step': i})
@@ -270,6 +308,7 @@ def gen_case(rng):
     hot_a = rng.sample(range(len(ATTRS)), rng.choice([1, 2, 3]))
     steps = []
     counter = itertools.count(10)
+    wmode = rng.random() < 0.4      # the session also assigns attributes and commits in the middle
     if rng.random() < 0.8:     # most histories start by loading the hot instances (reads need them in the identity map)
         steps.append({'w': [], 'op': {'k': 'fetch', 'ids': sorted(hot_c), 'cols': NONLAZY} if rng.random() < 0.7 else
                                      {'k': 'fetch', 'ids': sorted(hot_c), 'sql': True, 'cols': sorted(rng.sample(range(len(ATTRS)), rng.choice([2, 3, 5])))}})
@@ -284,6 +323,12 @@ def gen_case(rng):
                 else: w.append(['delete', cid])
         r = rng.random()
         c = rng.choice(hot_c if rng.random() < 0.85 else CIDS); p = rng.choice(hot_p if rng.random() < 0.85 else PIDS)
+        if wmode and rng.random() < 0.45:
+            rr = rng.random()
+            if rr < 0.5: op = {'k': 'write', 'c': c, 'a': rng.choice([a for a in hot_a if a != 0] or [1, 2, 3, 4]), 'v': rng.choice([0, 1, 2, next(counter)])}
+            elif rr < 0.85: op = {'k': 'commit'}
+            else: op = {'k': 'read', 'c': c, 'a': rng.choice(hot_a)}
+            steps.append({'w': w, 'op': op}); continue
         if r < 0.22:
             ids = sorted(set(rng.sample(CIDS, rng.choice([1, 2, 3])) + ([c] if rng.random() < 0.7 else [])))
             rr = rng.random()
@@ -316,6 +361,19 @@ def template_cases():
         for ch in changes:
             for rl in reloads:
                 hist(([], F), ([], ob), ([ch], rl), ([], ob))
+    # own writes: assign, (read back), commit and stay in the session, concurrent committed change, reload, read again
+    for a in (1, 2, 3, 4):
+        for readback in (True, False):
+            for rl in reloads[:4]:
+                for pre_read in (False, True):
+                    st = [([], F)] + ([([], {'k': 'read', 'c': 1, 'a': a})] if pre_read else []) + [([], {'k': 'write', 'c': 1, 'a': a, 'v': 50})]
+                    if readback: st.append(([], {'k': 'read', 'c': 1, 'a': a}))
+                    st += [([], {'k': 'commit'}), ([['set', 1, a, 99]], rl), ([], {'k': 'read', 'c': 1, 'a': a})]
+                    hist(*st)
+    hist(([], F), ([], {'k': 'write', 'c': 1, 'a': 1, 'v': 50}), ([], {'k': 'write', 'c': 2, 'a': 2, 'v': 60}), ([], F), ([], {'k': 'read', 'c': 2, 'a': 2}),
+         ([], {'k': 'commit'}), ([['set', 2, 2, 7], ['set', 1, 2, 8]], F), ([], {'k': 'read', 'c': 1, 'a': 2}))
+    # the session's own UPDATE is refused when an attribute it read was changed concurrently
+    hist(([], F), ([], {'k': 'read', 'c': 1, 'a': 1}), ([['set', 1, 1, 77]], {'k': 'write', 'c': 1, 'a': 2, 'v': 5}), ([], {'k': 'commit'}))
     # the regression input of fix 6b92706: len, move a child away, re-fetch, len
     hist(([], {'k': 'len', 'p': 1}), ([['move', 1, 2]], F), ([], {'k': 'len', 'p': 1}), ([], {'k': 'iter', 'p': 1}), ([], {'k': 'count', 'p': 1}))
     return cases
@@ -331,21 +389,21 @@ def run_cases(ctx, env, cases, label):
     mouts = iter(ctx.driver('C21', reqs) if ctx.driver.ok else [])
     for case, real in zip(cases, reals):
         if real is None: continue
-        kinds = [st['op']['k'] for st in case['steps']]
-        ctx.case(case, nontrivial=len(case['steps']) >= 3, kind=label)
-        for st, r in zip(case['steps'], real):
-            res = r['res']
-            ctx.count('op:%s:%s' % (st['op']['k'], res.get('err', 'ok')))
+        executed = {'rows': case['rows'], 'steps': [{'w': r['w'], 'op': r['op']} for r in real]}    # replayable as it is
+        ctx.case(executed, nontrivial=len(real) >= 3, kind=label)
+        for r in real:
+            ctx.count('op:%s:%s' % (r['op']['k'], r['res'].get('err', 'ok')))
+            if r['w']: ctx.count('writer-ops-applied', len(r['w']))
         bad = oracle(case, real)
         if bad:
             b = bad[0]
-            ctx.violation('a repeated read in one session returned a different value without an error', case, observed=b,
-                          expected='the value observed first, or UnrepeatableReadError',
+            ctx.violation('a repeated read in one session returned a different value without an error', executed, observed=b,
+                          expected='the value observed first (or assigned by the session itself), or UnrepeatableReadError',
                           key='%s:%s' % (b['kind'], b.get('attr_kind', b['op']['k'])))
         if ctx.driver.ok:
             d = compare(case, real, next(mouts))
             if d is not None:
-                ctx.divergence('model and real Pony disagree: ' + d['what'], case, model=d.get('model'), impl=d.get('real'))
+                ctx.divergence('model and real Pony disagree: ' + d['what'], executed, model=d.get('model'), impl=d.get('real'))
 
 
 # ---------------------------------------------------------------- part 2 (oracle only): m2m, one-to-one, default prefetching
@@ -451,7 +509,7 @@ def run(ctx, extra=None):
         import time
         t0 = time.time()
         tcs = template_cases()
-        if not ctx.thorough: tcs = ctx.rng.sample(tcs[:-1], 250) + tcs[-1:]
+        if not ctx.thorough: tcs = ctx.rng.sample(tcs[:616], 200) + tcs[616:]
         run_cases(ctx, env, tcs, 'template')
         n = ctx.scale(1000, 40000)
         for chunk in range(0, n, 1000):
